@@ -547,7 +547,8 @@ def rule_mod1_2(prog, rep, tier, accepted_field=None):
     it = emitter_writes(prog)
     seen = set()
     n_shape = n_body = n_field = 0
-    for w in it.writes:
+    # a site reached both with an owned copy and with the caller's own dict is judged in the worse context
+    for w in sorted(it.writes, key=lambda w_: bool(w_.owned)):
         where = w.fn.qualname
         construct = "%s: %s" % (_wkey(w), src(w.node, 70))
         if (where, construct) in seen:
